@@ -1,5 +1,55 @@
 //! Mounted at the end of rawdb/src/lib.rs (generated tree only).
 #![allow(unused_imports, dead_code)]
+use super::*;
 
 #[path = "/verif/kani/common/stubs.rs"]
 pub mod stubs;
+#[path = "/verif/kani/rawdb/world.rs"]
+pub mod world;
+#[path = "/verif/kani/rawdb/ops_write.rs"]
+mod ops_write;
+#[path = "/verif/kani/rawdb/ops_misc.rs"]
+mod ops_misc;
+
+use anydb_verif_platform::fs as pfs;
+use anydb_verif_platform::mmap::MmapMut as PMmap;
+
+/// A database object built directly (no open): ghost-mode data file of length `file_len`,
+/// empty layout, empty regions table with room for `slots` metadata slots.
+pub(crate) fn mk_db(file_len: usize, slots: usize) -> Database {
+    pfs::state().files[pfs::DATA].len = file_len;
+    Database(Arc::new(DatabaseInner {
+        path: PathBuf::new(),
+        name: String::new(),
+        layout: RwLock::new(Layout::default()),
+        regions: RwLock::new(crate::regions::verif_regions::mk_regions(slots)),
+        mmap: RwLock::new(PMmap::verif_new(pfs::DATA, file_len)),
+        file: RwLock::new(File::verif_new(pfs::DATA)),
+        cached_file_len: AtomicUsize::new(file_len),
+        bg_tasks: Mutex::new(Vec::new()),
+        bg_sync: (Mutex::new(false), Condvar::new()),
+    }))
+}
+pub(crate) fn layout_of(db: &Database) -> &mut Layout {
+    db.0.layout.verif_peek()
+}
+pub(crate) fn regions_of(db: &Database) -> &mut Regions {
+    db.0.regions.verif_peek()
+}
+pub(crate) fn mmap_len_of(db: &Database) -> usize {
+    db.0.mmap.verif_peek().len()
+}
+pub(crate) fn lock_ids(db: &Database) -> [usize; 4] {
+    [db.0.layout.verif_id(), db.0.regions.verif_id(), db.0.mmap.verif_id(), db.0.file.verif_id()]
+}
+
+/// Stub for `Database::sync_bg_tasks` (background tasks are outside every claim; the real body
+/// drains a Vec<JoinHandle> whose drop glue CBMC cannot bound).
+pub(crate) fn sync_bg_tasks_stub(_db: &Database) -> Result<()> {
+    Ok(())
+}
+
+/// Public (Kani build only) helper for vecdb's storage model: a region that belongs to no database.
+pub fn api_detached_region() -> Region {
+    crate::region::verif_region::mk_detached(0, crate::region_metadata::verif_meta::mk_meta("m", 0, 0, PAGE_SIZE, 0))
+}
